@@ -50,10 +50,56 @@ class Ob:
     discharged: Optional[str] = None
     explicit: bool = False
     facts: List[Tuple[ast.expr, bool]] = field(default_factory=list)
+    guard_opaque: bool = False      # an explicit raise under a condition the atom language cannot express
 
     @property
     def ident(self) -> int:
         return id(self.node) ^ hash(self.kind)
+
+
+def key_id_mod(prog, mod, k: ast.expr):
+    """identity of a constant dict key written in module `mod`"""
+    if isinstance(k, ast.Constant):
+        return ('const', repr(k.value))
+    sym = prog.resolve_expr_symbol(mod, k) if isinstance(k, (ast.Name, ast.Attribute)) else None
+    if isinstance(sym, tuple) and sym[0] == 'enum_member':
+        return ('enum', sym[1].fq, sym[2])
+    if isinstance(sym, tuple) and sym[0] == 'const' and isinstance(sym[1], ast.Constant):
+        return ('const', repr(sym[1].value))
+    return None
+
+
+def _is_relational(cond: ast.expr) -> bool:
+    """The condition relates several computed values to each other (`len(a) != len(b)`, `[x for x in a if x not in b]`,
+    `len({f(x) for x in xs}) > 1`): no choice of ONE input field decides it, and the atom language has no place for it.
+    Simple conditions - truthiness / None-ness / isinstance of a value, comparison of a value with a constant - are not."""
+    def const_like(e) -> bool:
+        if isinstance(e, ast.Constant):
+            return True
+        if isinstance(e, (ast.List, ast.Tuple, ast.Set)):
+            return all(const_like(x) for x in e.elts)
+        if isinstance(e, ast.Attribute):
+            return e.attr.isupper()
+        if isinstance(e, ast.Name):
+            return e.id.isupper() or e.id in ('None', 'True', 'False')
+        if isinstance(e, ast.UnaryOp):
+            return const_like(e.operand)
+        return False
+
+    def computed(e) -> bool:
+        return any(isinstance(x, (ast.ListComp, ast.SetComp, ast.DictComp, ast.GeneratorExp)) for x in ast.walk(e))
+
+    if isinstance(cond, ast.UnaryOp) and isinstance(cond.op, ast.Not):
+        return _is_relational(cond.operand)
+    if isinstance(cond, ast.BoolOp):
+        return any(_is_relational(v) for v in cond.values)
+    if isinstance(cond, ast.Compare):
+        sides = [cond.left] + list(cond.comparators)
+        if any(computed(x) for x in sides):
+            return True
+        return sum(0 if const_like(x) else 1 for x in sides) >= 2 and not all(
+            isinstance(o, (ast.In, ast.NotIn, ast.Is, ast.IsNot)) for o in cond.ops)
+    return computed(cond)
 
 
 @dataclass
@@ -488,6 +534,10 @@ class ExcAnalysis:
             idx_val = -idx.operand.value
         text = f'`{ast.unparse(n)[:70]}`'
         if rt[0] == 'dict' or (rt[0] == 'any' and not idx_is_int):
+            why = self._total_table(fn, recv, idx, n)
+            if why:
+                ob(n, 'subscript', 'KeyError', text, discharged=why)
+                return
             # membership guard
             for cond, pol in A.facts_at(n):
                 if isinstance(cond, ast.Compare) and len(cond.ops) == 1 and same_expr(cond.comparators[0], recv) \
@@ -534,6 +584,146 @@ class ExcAnalysis:
             return
         ob(n, 'subscript', 'IndexError' if rt[0] in ('list', 'str', 'tuple') or idx_is_int else 'LookupError',
            text + ' with an index that is not bounded by a guard')
+
+    def _total_table(self, fn: FuncInfo, recv: ast.expr, idx: ast.expr, node: ast.AST) -> Optional[str]:
+        """The lookup cannot miss: (a) a module-level dict display that nothing in the package modifies, looked up with a
+        constant that is one of its keys; (b) a dict that has an entry for every member of an enum (a display listing all
+        members, or `{m: ... for m in E}`), never shrunk, looked up with a value of that enum type."""
+        prog = self.prog
+        if not isinstance(recv, ast.Name):
+            return None
+        name = recv.id
+        env = self.cg.env(fn)
+
+        def key_id(k: ast.expr):
+            if isinstance(k, ast.Constant):
+                return ('const', repr(k.value))
+            sym = prog.resolve_expr_symbol(fn.module, k) if isinstance(k, (ast.Name, ast.Attribute)) else None
+            if isinstance(sym, tuple) and sym[0] == 'enum_member':
+                return ('enum', sym[1].fq, sym[2])
+            if isinstance(sym, tuple) and sym[0] == 'const' and isinstance(sym[1], ast.Constant):
+                return ('const', repr(sym[1].value))
+            return None
+
+        def total_over_enum(d: ast.expr):
+            if isinstance(d, ast.DictComp) and len(d.generators) == 1 and not d.generators[0].ifs and \
+                    isinstance(d.generators[0].target, ast.Name) and isinstance(d.key, ast.Name) and \
+                    d.key.id == d.generators[0].target.id:
+                c = prog.resolve_expr_symbol(fn.module, d.generators[0].iter) \
+                    if isinstance(d.generators[0].iter, (ast.Name, ast.Attribute)) else None
+                if isinstance(c, ClassInfo) and c.is_enum:
+                    return c
+            if isinstance(d, ast.Dict) and d.keys and all(k is not None for k in d.keys):
+                ids = [key_id(k) for k in d.keys]
+                if all(i is not None and i[0] == 'enum' for i in ids) and len({i[1] for i in ids}) == 1:
+                    c = prog.classes.get(ids[0][1])
+                    if c is not None and {i[2] for i in ids} == set(c.enum_members):
+                        return c
+            return None
+
+        def shrinks(scope_nodes) -> bool:
+            for x in scope_nodes:
+                if isinstance(x, ast.Delete) and any(isinstance(t, ast.Subscript) and isinstance(t.value, ast.Name)
+                                                      and t.value.id == name for t in x.targets):
+                    return True
+                if isinstance(x, ast.Call) and isinstance(x.func, ast.Attribute) and isinstance(x.func.value, ast.Name) and \
+                        x.func.value.id == name and x.func.attr in ('pop', 'popitem', 'clear'):
+                    return True
+            return False
+
+        local_sites = env._assign_sites.get(name, [])
+        if name not in env.vars and not local_sites:
+            sym = prog.resolve_name(fn.module, name)
+            if isinstance(sym, tuple) and sym[0] == 'const' and isinstance(sym[1], ast.Dict):
+                d, mod = sym[1], sym[2]
+                # nothing in the package writes the table
+                for f2 in prog.all_functions():
+                    for x in iter_own_nodes(f2.node):
+                        tgt = None
+                        if isinstance(x, ast.Subscript) and isinstance(x.ctx, (ast.Store, ast.Del)):
+                            tgt = x.value
+                        elif isinstance(x, ast.Call) and isinstance(x.func, ast.Attribute) and x.func.attr in (
+                                'pop', 'popitem', 'clear', 'update', 'setdefault', '__setitem__', '__delitem__'):
+                            tgt = x.func.value
+                        if tgt is not None:
+                            ts = prog.resolve_expr_symbol(f2.module, tgt) if isinstance(tgt, (ast.Name, ast.Attribute)) else None
+                            if isinstance(ts, tuple) and ts[0] == 'const' and ts[1] is d:
+                                return None
+                kid = key_id(idx)
+                if kid is not None and any(key_id_mod(prog, mod, k) == kid for k in d.keys if k is not None):
+                    return f'`{name}` is a constant table of {mod.name} that has the key `{ast.unparse(idx)}`'
+                en = None
+                ids = [key_id_mod(prog, mod, k) for k in d.keys if k is not None]
+                if ids and all(i is not None and i[0] == 'enum' for i in ids) and len({i[1] for i in ids}) == 1:
+                    c = prog.classes.get(ids[0][1])
+                    if c is not None and {i[2] for i in ids} == set(c.enum_members):
+                        en = c
+                if en is not None and strip_opt(self.abs.type_at(fn, idx, node)) == ('cls', en.fq) and \
+                        self.abs.at(fn, idx, node).none == NO:
+                    return f'`{name}` is a constant table with an entry for every member of {en.name}'
+            return None
+        def local_def(f: FuncInfo, nm: str) -> Optional[ast.expr]:
+            sites = self.cg.env(f)._assign_sites.get(nm, [])
+            if len(sites) != 1:
+                return None
+            if sites[0][0] == 'expr':
+                return sites[0][1]
+            if sites[0][0] == 'ann':
+                vals = [x.value for x in iter_own_nodes(f.node) if isinstance(x, ast.AnnAssign) and x.value is not None
+                        and isinstance(x.target, ast.Name) and x.target.id == nm]
+                return vals[0] if len(vals) == 1 else None
+            return None
+
+        d0 = local_def(fn, name)
+        if d0 is not None:
+            en = total_over_enum(d0)
+            if en is None and isinstance(d0, ast.Call):
+                # the table is made by a package function that returns, on every path, a local table of that kind
+                callees = [c for c in env.resolve_call(d0) if isinstance(c, FuncInfo)]
+                if len(callees) == 1:
+                    cf = callees[0]
+                    rets = [r for r in iter_own_nodes(cf.node) if isinstance(r, ast.Return)]
+                    if rets and all(isinstance(r.value, ast.Name) for r in rets) and len({r.value.id for r in rets}) == 1:
+                        rn = rets[0].value.id
+                        dd = local_def(cf, rn)
+                        inner = name
+                        name = rn
+                        ok_inner = dd is not None and total_over_enum(dd) is not None and not shrinks(iter_own_nodes(cf.node))
+                        name = inner
+                        if ok_inner:
+                            en = total_over_enum(dd)
+            if en is not None and not shrinks(iter_own_nodes(fn.node)):
+                it = self.abs.type_at(fn, idx, node)
+                kid = key_id(idx)
+
+                def member_expr(e: ast.expr, depth: int = 0) -> bool:
+                    k = key_id(e)
+                    if k is not None:
+                        return k[0] == 'enum' and k[1] == en.fq
+                    if isinstance(e, ast.IfExp):
+                        return member_expr(e.body, depth + 1) and member_expr(e.orelse, depth + 1)
+                    if isinstance(e, ast.Name) and depth < 4:
+                        sites = env._assign_sites.get(e.id, [])
+                        if not sites or e.id in [a.arg for a in fn.params()]:
+                            return False
+                        for kind_, src_ in [(x[0], x[1]) for x in sites]:
+                            if kind_ == 'expr':
+                                if not member_expr(src_, depth + 1):
+                                    return False
+                            elif kind_ == 'elem':
+                                # bound by iterating the enum class itself (every element is a member)
+                                c = prog.resolve_expr_symbol(fn.module, src_) if isinstance(src_, (ast.Name, ast.Attribute)) else None
+                                if c is not en:
+                                    return False
+                            else:
+                                return False
+                        return True
+                    return False
+
+                if member_expr(idx) or (kid is not None and kid[0] == 'enum' and kid[1] == en.fq) or \
+                        (strip_opt(it) == ('cls', en.fq) and it[0] != 'opt' and self.abs.at(fn, idx, node).none != YES):
+                    return f'`{name}` has an entry for every member of {en.name} and is never shrunk'
+        return None
 
     def _in_annotation(self, n: ast.AST) -> bool:
         p = self.prog.parent(n)
@@ -1214,6 +1404,8 @@ class ExcAnalysis:
                     continue
                 here = [f'{fn.fq}:{getattr(o.node, "lineno", 0)} {o.text}']
                 atoms = self._atoms(fn, o.facts) if (o.explicit and not self.is_library_error(o.exc)) else None
+                o.guard_opaque = bool(o.explicit and o.facts and atoms is None and not self.is_library_error(o.exc)
+                                      and any(_is_relational(c) for c, _p in o.facts))
                 if atoms:
                     self.cond[fn.fq].append(CondRaise(o.exc, atoms, fn, o, here))
                 else:
